@@ -171,7 +171,7 @@ func init() {
 				},
 			},
 			{
-				Name: "random-rings", Count: h.Fixed(20000, 2000000),
+				Name: "random-rings", Count: h.Fixed(20000, 4000000),
 				Run: func(c *h.Ctx, idx uint64, r *h.Rand) {
 					n := r.Range(3, 12)
 					ox, oy := float64(r.Range(-16, 0)), float64(r.Range(-16, 0))
@@ -197,7 +197,7 @@ func init() {
 				},
 			},
 			{
-				Name: "polygons", Count: h.Fixed(10000, 500000),
+				Name: "polygons", Count: h.Fixed(10000, 2000000),
 				Run: func(c *h.Ctx, idx uint64, r *h.Rand) {
 					// 1..3 polygons, each an outer ring with 0..3 "holes" (arbitrary rings; the
 					// statement defines polygon containment from ring containment alone)
